@@ -338,15 +338,15 @@ impl CatalogPersistence {
             let (schema, new_pos) = Self::deserialize_schema(bytes, pos)?;
             pos = new_pos;
 
-            if let Some(existing_schema) = catalog.get_schema_mut(schema.name()) {
-                for table in schema.tables().values() {
-                    existing_schema.add_table(table.clone());
-                }
-            } else {
-                bail!(
-                    "schema '{}' not found in catalog during deserialization",
-                    schema.name()
-                );
+            if !catalog.schema_exists(schema.name()) {
+                // a schema the user created is part of the persisted catalog, not corruption
+                catalog.create_schema(schema.name().to_string())?;
+            }
+            let existing_schema = catalog
+                .get_schema_mut(schema.name())
+                .ok_or_else(|| eyre::eyre!("schema '{}' could not be created", schema.name()))?;
+            for table in schema.tables().values() {
+                existing_schema.add_table(table.clone());
             }
         }
 
